@@ -1270,6 +1270,31 @@ def life_scripts(tier, rng):
     return scripts
 
 
+def uci_race_scripts(tier, rng):
+    """UCI sessions for the race detector (C14, protocol front): protocol-valid sessions in which the loop writes while a search
+    writes, and sessions with the perft command (not part of UCI, but started and stopped by the same loop)."""
+    S = ul.send
+    pre = [S("uci"), ul.wait("uciok", 5000), S("setoption name Hash value 8"), S("setoption name Use_Book value false"), ul.sync(8000)]
+    out = []
+
+    def add(name, steps):
+        out.append({"id": len(out) + 1, "name": name, "steps": pre + steps + [ul.sync(8000)]})
+    for rep in range(2 if tier == "quick" else 12):
+        j = lambda: ul.sleep(rng.choice([0, 1, 3, 8, 20]))   # noqa: E731
+        add("isready-while-infinite", [S("position startpos"), S("go infinite")] + [x for _ in range(5) for x in (j(), ul.sync(8000))] + [S("stop"), ul.wait("bestmove", 8000)])
+        add("isready-while-depth", [S("position startpos moves e2e4 e7e5"), S("go depth 5"), j(), ul.sync(8000), j(), ul.sync(8000), ul.wait("bestmove", 60000)])
+        add("ponderhit", [S("position startpos moves e2e4"), S("go ponder wtime 1500 btime 1500"), j(), ul.sync(8000), S("ponderhit"), ul.sync(8000), ul.wait("bestmove", 20000)])
+        add("go-after-bestmove", [S("position startpos"), S("go depth 3"), ul.wait("bestmove", 30000), S("ucinewgame"), S("position startpos moves d2d4"),
+                                  S("go depth 3"), ul.wait("bestmove", 30000)])
+        add("stop-against-timer", [S("position startpos"), S("go movetime 60"), ul.sleep(rng.choice([50, 55, 58, 60, 62, 66])), S("stop"), ul.wait("bestmove", 8000)])
+        add("perft-stop", [S("perft 5"), ul.sleep(rng.choice([0, 5, 50, 200])), S("stop"), ul.sync(8000), ul.sleep(300)])
+        add("perft-finishes-then-stop", [S("perft 2"), ul.sleep(1500), S("stop"), ul.sync(8000)])
+        add("perft-twice", [S("perft 4"), j(), S("perft 4"), ul.sleep(400), S("stop"), ul.sync(8000), ul.sleep(300)])
+        add("perft-and-search", [S("perft 5"), S("position startpos"), S("go depth 3"), ul.wait("bestmove", 60000), S("stop"), ul.sync(8000), ul.sleep(300)])
+        add("perft-stop-perft", [S("perft 5"), ul.sleep(30), S("stop"), j(), S("perft 3"), ul.sleep(1500), S("stop"), ul.sync(8000)])
+    return out
+
+
 def run_life(scripts, race=False, watchdog=3000, cmd="life-run", procs=8, extra=()):
     """Runs lifecycle scripts in driver processes (a hang abandons the process; the rest is re-run)."""
     import shutil
@@ -1708,7 +1733,34 @@ def check_C14(tier):
             ck.discs.append({"prop": "C14", "kind": "data-race", "sig": sig, "fen": "", "detail": blk[:1500], "replay": {}})
             key = "C14|data-race|" + sig
             ck.disc_count[key] = ck.disc_count.get(key, 0) + 1
-    ck.cov["evaluations"] += len(results) + len(rres)
+    # 4b. the protocol front under the race detector: what the protocol loop itself shares with the goroutines it starts - the output
+    # writer (readyok / info strings of the loop, info / bestmove of the search), and the perft command (internal/movegen/perft.go),
+    # whose goroutine is started by 'perft' and stopped by the same 'stop' that stops the search
+    uscripts = uci_race_scripts(tier, rng)
+    ures = ul.run_sessions(uscripts, procs=6, timeout=180, race=True)
+    nurace = 0
+    for sc in uscripts:
+        r = ures[sc["id"]]
+        if r["rc"] == -9:
+            raise Inconclusive("UCI session under the race detector timed out (%s)" % sc["name"])
+        if r["rc"] != 0:
+            ck.discs.append({"prop": "C14", "kind": "engine-dies", "sig": "uci-race/dies/" + sc["name"], "fen": "", "detail": r["stderr"][-1500:], "replay": {"script": sc}})
+            ck.disc_count["C14|engine-dies|uci-race/dies/" + sc["name"]] = ck.disc_count.get("C14|engine-dies|uci-race/dies/" + sc["name"], 0) + 1
+        for blk in r["races"]:
+            tops = []
+            for stk in re.split(r"\n\n", blk.strip())[:2]:
+                # innermost ENGINE frame of each of the two conflicting accesses
+                for m in re.finditer(r"^\s+(\S+)\(.*?\)\n\s+(\S+?):(\d+)", stk, re.M):
+                    if "/internal/" in m.group(2) and "/verifdrv/" not in m.group(2):
+                        tops.append(m.group(1))
+                        break
+            if len(tops) == 2:
+                nurace += 1
+                sig = "race/uci/" + " vs ".join(sorted(t.split("/")[-1] for t in tops))
+                ck.discs.append({"prop": "C14", "kind": "data-race", "sig": sig, "fen": "", "detail": blk[:1500], "replay": {"script": sc}})
+                ck.disc_count["C14|data-race|" + sig] = ck.disc_count.get("C14|data-race|" + sig, 0) + 1
+    ck.cov.setdefault("counters", {}).update({"uci_sessions_under_race_detector": len(uscripts), "race_reports_in_uci_sessions": nurace})
+    ck.cov["evaluations"] += len(results) + len(rres) + len(uscripts)
     ck.cov["distinct_nontrivial"] = len({json.dumps(s_["calls"]) + str(s_["jitter"]) + "/" + str(s_.get("procs", 0)) for s_ in scripts})
     ck.cov["traces_validated_against_impl"] += nacc
     ck.cov.setdefault("counters", {}).update({"scripts": len(scripts), "runs_explained_by_model": nacc, "model_drift": drift,
